@@ -98,6 +98,7 @@ type pmmx struct {
 
 	allocT, bootT, poolT                                    *types.Named
 	bInit, setup, markRole, kernelRole, replayRole, bAlloc  *ssa.Function
+	initDone                                                *ssa.Function
 	bFree, poolFor, bootInit, bootAlloc, pmmInit, setFA     *ssa.Function
 	visit, earlyWrap, bitmapWrap                            *ssa.Function
 	freeBitmap, freeCount, reserved, totalPages             *types.Var
@@ -122,6 +123,16 @@ func newPMMX(c *Ctx, rule string) *pmmx {
 	x.bootInit = m.lookupMethod(pmm, "BootMemAllocator", "init")
 	x.bootAlloc = m.lookupMethod(pmm, "BootMemAllocator", "AllocFrame")
 	x.pmmInit = m.lookupFunc(pmm, "Init")
+	// the initialisation routine is not named by any property: inlined into
+	// pmm.Init, pmm.Init plays its role and "it succeeded" is the pool setup
+	x.initDone = x.bInit
+	if x.bInit == nil && x.pmmInit != nil && x.setup != nil {
+		for _, cs := range m.callSites(x.setup) {
+			if cs.Parent() == x.pmmInit {
+				x.bInit, x.initDone = x.pmmInit, x.setup
+			}
+		}
+	}
 	x.setFA = m.lookupFunc("mm", "SetFrameAllocator")
 	x.visit = m.lookupFunc("multiboot", "VisitMemRegions")
 	x.earlyWrap = m.lookupFunc(pmm, "earlyAllocFrame")
@@ -325,7 +336,7 @@ func runC01(c *Ctx) {
 	// ---- R1 ----
 	c.floor("C01.R1", 2)
 	g := newIG(m, x.pmmInit, nil)
-	initCalls := g.callNodes(x.bInit)
+	initCalls := g.callNodes(x.initDone)
 	npub := 0
 	for _, n := range g.callNodes(x.setFA) {
 		if strip(g.callArgs(n)[0]) != ssa.Value(x.bitmapWrap) {
@@ -334,7 +345,7 @@ func runC01(c *Ctx) {
 		npub++
 		okB, path := g.MustPassBefore(n, func(k int) bool { return contains(initCalls, k) })
 		nilErr := hasFact(g.FactsAt(n), func(f Fact) bool {
-			return isNilFact(f, token.EQL, func(v ssa.Value) bool { return derivesFromCall(v, x.bInit, m) })
+			return isNilFact(f, token.EQL, func(v ssa.Value) bool { return derivesFromCall(v, x.initDone, m) })
 		})
 		c.check(okB && nilErr, "C01.R1", "publish "+m.fnName(x.pmmInit), "SetFrameAllocator(bitmapAllocFrame) only after init() returned nil",
 			"the bitmap allocator is published on a path on which init() has not run or its error has not been tested nil", g.where(path, 8)...)
